@@ -3,9 +3,11 @@
 M: TLC explores the per-ray search state machine (spec/AndOrSearch.tla) for every threshold
    profile of a small sample; mutation EmitNext must violate PointIsLastEvaluated.
 V: real AndContour / OrContour computations; the loop's hook events (VIROCON_VERIF=1) and the
-   returned coordinates are validated by spec/Trace_C04.tla: every ray's event sequence must
-   be a behaviour of the search (branch, continuation, exit, cap), returned points must be
-   the rays' final vectors, exceedance re-measured on the sample must be within tolerance.
+   returned coordinates are validated by spec/Trace_C04.tla: returned points must be the
+   rays' final vectors (OR: those inside the range, in order), exceedance re-measured on the
+   sample must be within tolerance unless the warning was raised; whether every ray's event
+   sequence is a behaviour of the search spec (start, step recurrence, continue/stop decisions,
+   cap) is reported as conformance in the evidence, not as a verdict.
 """
 import math
 import warnings
@@ -223,6 +225,8 @@ def run(ctx):
     ctx.notes.update(contours=len(recs), contours_with_hook_events=hooked, contours_with_precision_warning=nwarned,
                      rays=sum(len(r["rays"]) for r in recs),
                      loop_iterations=sum(len(x["iters"]) for r in recs for x in r["rays"]))
+    log = (ctx.work / "tlc_Trace_C04_Trace_C04.log").read_text()
+    ctx.notes["contours_whose_loop_events_are_a_behaviour_of_AndOrSearch"] = log.count('<<"CONFORMANT"')
     if hooked == 0:
         ctx.assumptions.append("NO hook events were seen in this run: step-level validation degraded to API-level")
     if nwarned == 0:
